@@ -186,6 +186,12 @@ def compact_inputs(rng):
         yield segs[:4] + s.cell_to_children(segs[4], 2)
     yield res0
     yield f0 + res0[1:]
+    # low faces given directly, high faces through their segments (and the converse): after the first pass the
+    # merged parents must still line up with the directly given faces
+    yield res0[:11] + s.cell_to_children(res0[11], 1)
+    yield res0[:6] + [x for f in res0[6:] for x in s.cell_to_children(f, 1)]
+    yield [x for f in res0[:6] for x in s.cell_to_children(f, 1)] + res0[6:]
+    yield res0[:3] + s.cell_to_children(res0[3], 1) + res0[4:9] + s.cell_to_children(res0[9], 1) + res0[10:]
     yield f0
     yield f0[:4]
     for seg in f0[:2] + f8[:1]:
